@@ -9,10 +9,13 @@ TESTS = {
     'nf_hint_unpack': dict(fns=['hint_bit_unpack', 'sig_decode'], props=['C08', 'C02', 'C05', 'C13'],
                            bound='all 6^5 strings over {0,1,2,3,4,255} at k=2, omega=3; structured malformations at the three real sizes'),
     'nf_roundtrip_keys': dict(fns=['private_to_public_key', 'get_public_key', 'expand_public', 'expand_private', 'into_bytes', 'try_from_bytes',
-                                   'key_gen_internal', 'keygen_from_seed'], props=['C01', 'C11', 'C09'],
+                                   'key_gen_internal', 'keygen_from_seed', 'sign_internal', 'verify_internal'], props=['C01', 'C11', 'C09'],
                               bound='2 seeds x 3 parameter sets x {pure, SHA-256, SHA-512, SHAKE128} x {generated, round-tripped, derived} keys, 255-byte context (a sample, not a proof)'),
     'nf_pk_total': dict(fns=['expand_public', 'pk_decode', 'try_from_bytes', 'into_bytes', 'pk_encode'], props=['C09', 'C13', 'C02'],
                         bound='5 structured public-key byte strings per parameter set (all 0x00, all 0xFF, a pattern, zero t1, one-hot t1): accepted and re-serialised identically'),
+    'nf_mprime_format': dict(fns=['sign_internal', 'verify_internal', 'hash_message', 'try_sign_with_rng', 'try_hash_sign_with_rng', 'verify', 'hash_verify'],
+                             props=['C06', 'C05', 'C03', 'C02', 'C07', 'C01'],
+                             bound='3 parameter sets x |ctx| in {0,1,2,17,254,255} x {pure, SHA-256, SHA-512, SHAKE128}: public entry points vs Sign/Verify_internal on the oracle-formatted M-prime (differential, one key and message)'),
     'nf_sk_fields': dict(fns=['sk_decode', 'expand_private', 'try_from_bytes', 'bit_unpack', 'is_in_range'], props=['C10', 'C13'],
                          bound='every s1/s2 field position x every field value, on one honestly generated key per parameter set'),
 }
